@@ -99,10 +99,11 @@ def sample_records(outs, kinds=("Post", "End"), n=3):
 
 
 def design(ctx, cfgs):
-    """Model-check the design model.  cfgs: list of (cfgname, workers).  Returns (states, transitions)."""
+    """Model-check the design model (configs in parallel).  cfgs: list of (cfgname, workers).
+    Returns (states, transitions)."""
     st = tr = 0
-    for cfg, workers in cfgs:
-        r = vlib.tlc("CoreLoopMC", cfg, workers=workers, timeout=3000, heap="12g")
+    jobs = [dict(module="CoreLoopMC", cfg=cfg, workers=workers, timeout=3000, heap="12g") for cfg, workers in cfgs]
+    for (cfg, workers), r in zip(cfgs, vlib.tlc_parallel(jobs, maxpar=4)):
         if r.code != 0:
             if r.violated:
                 ctx.violation("design model CoreLoopMC/%s violates %s:\n%s" % (cfg, r.violated_names(), r.out[-2500:]),
@@ -127,3 +128,164 @@ def base_matrix(seed, quick):
                        scale=[1, 5, 20, 50][(i // 2) % 4], order=orders[i % len(orders)] if i % 3 else "none",
                        inflight=[0, 2, 5][i % 3], maxsteps=40000))
     return cs
+
+
+# ------------------------------------------------------------------ scripted replay (TLC -> real Stepper)
+def _outs_list(o):
+    if isinstance(o, dict):
+        return [o[k] for k in sorted(o, key=lambda x: int(x))]
+    return list(o)
+
+
+def mc_script_to_vsim(hist, cfg, rnd):
+    """Convert one CoreLoopMC behaviour (ghost `hist`) into a vsim script + the Impl predictions."""
+    iters, tracks, pred = [], {}, []
+    for rec in hist:
+        k = rec["k"]
+        if k == "gen":
+            iters.append({"prims": [{"pt": p["pt"], "E": p["E"]} for p in rec["prims"]], "err": rec["err"]})
+            if rec["err"]:
+                break
+        elif k == "phys":
+            for o in _outs_list(rec["outs"]):
+                dep = float(o["dep"])
+                secs = [[int(s[0]), float(s[1])] for s in o["secs"]]
+                # turn part of the local deposit into secondaries below the production cut (they must be
+                # cut by InteractionApplier and deposited: 1/4 MeV, + 2mc^2 = 1 MeV for a positron)
+                r = rnd.random()
+                if dep >= 1 and r < 0.35:
+                    cut = [rnd.choice([0, 1]), 0.25]
+                    dep -= 0.25
+                    secs.insert(rnd.randrange(len(secs) + 1), cut)
+                elif dep >= 2 and r < 0.5:
+                    dep -= 1.25
+                    secs.insert(rnd.randrange(len(secs) + 1), [2, 0.25])
+                tracks.setdefault(str(o["tid"]), []).append({"alive": bool(o["alive"]), "E1": float(o["E1"]),
+                                                            "dep": dep, "secs": secs})
+        elif k in ("start", "end"):
+            pred.append(rec)
+            if rec.get("err"):
+                break
+    return {"slots": cfg["NSlots"], "initcap": cfg["InitCap"], "order": "init_charge" if cfg["Charge"] else "none",
+            "secfactor": 4.0, "iters": iters, "tracks": tracks}, pred
+
+
+def compare_impl(trace_path, pred):
+    """Impl-level comparison: slot->track-id maps after Start / End and the queue tail, as predicted by
+    CoreLoopMC.  Returns a list of drift descriptions (informational: only Abs rejections are violations)."""
+    drift = []
+    slots = {}
+    queue = []
+    pi = 0
+    with open(trace_path) as fh:
+        for line in fh:
+            r = json.loads(line)
+            e = r.get("e")
+            if e in ("Start", "End"):
+                for c in r["changed"]:
+                    slots[c["slot"]] = c.get("tid", -1) if c["st"] != "inactive" else -1
+                rem = {(x["ev"], x["tid"]) for x in r["removed"]}
+                queue = [t for t in queue if (0, t) not in rem] + [a["tid"] for a in r["added"]]
+                while pi < len(pred) and pred[pi]["k"] != e.lower():
+                    pi += 1
+                if pi >= len(pred):
+                    break
+                p = pred[pi]
+                pi += 1
+                if p.get("err"):
+                    continue
+                exp = {i + 1: t for i, t in enumerate(p["tids"])}
+                got = {i: slots.get(i, -1) for i in exp}
+                if got != exp:
+                    drift.append("%s: slot map %s, CoreLoopMC predicted %s" % (e, got, exp))
+                if e == "End" and list(p.get("queue", [])) != queue:
+                    drift.append("End: queue %s, CoreLoopMC predicted %s" % (queue, p.get("queue")))
+            elif e == "Gen":
+                queue = queue + [a["tid"] for a in r["added"]]
+            elif e == "Reset":
+                slots, queue = {}, []
+    return drift
+
+
+def replay(ctx, cfgs, nsim, prefixes, depth=60):
+    """TLC-simulated behaviours of CoreLoopMC -> scripted physics on the real Stepper -> CoreLoopTrace."""
+    import random
+    vlib.build(["vsim"])
+    rnd = random.Random(ctx.seed)
+    scripts = []
+    for cname, consts in cfgs:
+        r = vlib.tlc("CoreLoopMC", "CoreLoopMC_" + cname, workers=4, simulate=max(1, nsim // 4), depth=depth,
+                     seed=ctx.seed % 100000, timeout=900, heap="4g")
+        if r.code != 0 and not r.violated:
+            raise vlib.Broken("TLC simulate failed on %s: %s" % (cname, r.out[-2000:]))
+        if r.violated:
+            ctx.violation("design model CoreLoopMC/%s violates %s in simulation" % (cname, r.violated_names()), tags={"design": cname})
+        seen = set()
+        for m in re.finditer(r'<<"SCRIPT", "(.*)">>', r.out):
+            txt = m.group(1).replace('\\"', '"')
+            if txt in seen:
+                continue
+            seen.add(txt)
+            scripts.append((cname, consts, json.loads(txt)))
+    if not scripts:
+        raise vlib.Broken("no replay scripts generated")
+    outs, preds, paths = [], [], []
+    for i, (cname, consts, hist) in enumerate(scripts):
+        vs, pred = mc_script_to_vsim(hist, consts, rnd)
+        sp = ctx.path("replay%04d.json" % i)
+        json.dump(vs, open(sp, "w"))
+        paths.append(sp)
+        preds.append(pred)
+    import concurrent.futures as cf
+
+    def one(i):
+        out = ctx.path("replay%04d.ndjson" % i)
+        rr = vlib.run_harness("vsim", [out, "script=" + paths[i], "dets=%d" % (i % 4), "diag=1", "seed=%d" % (ctx.seed + i),
+                                       "maxsteps=200"], timeout=120, check=False)
+        if rr.returncode != 0 or not os.path.exists(out):
+            raise vlib.Broken("vsim scripted failed: %s" % rr.stderr[-1500:])
+        return out
+    with cf.ThreadPoolExecutor(max_workers=8) as ex:
+        outs = list(ex.map(one, range(len(scripts))))
+    # Abs validation (concatenated shards)
+    groups = vlib.shards(list(range(len(outs))), 8)
+    jobs, files = [], []
+    for gi, g in enumerate(groups):
+        path = ctx.path("replayshard%02d.ndjson" % gi)
+        with open(path, "w") as fh:
+            for i in g:
+                fh.write(open(outs[i]).read())
+        files.append(path)
+        jobs.append(dict(module="CoreLoopTrace", cfg="CoreLoopTrace", workers=1, env={"TRACE": path}, timeout=3000, heap="6g"))
+    results = vlib.tlc_parallel(jobs, maxpar=8)
+    tot = {"runs": 0, "steps": 0, "iters": 0, "tracks": 0, "errors": 0, "inplace": 0, "delivered": 0}
+    for gi, (g, r) in enumerate(zip(groups, results)):
+        m = re.search(r'<<"SUMMARY", "(.*)">>', r.out)
+        if r.code != 0 or not m:
+            if "REJECTED" in r.out or r.violated:
+                ctx.violation("scripted replay shard %d rejected by CoreLoopTrace:\n%s" % (gi, vlib.rejected_info(r)),
+                              tags={"structural": "rejected"}, files=[files[gi]])
+                continue
+            raise vlib.Broken("TLC failed on replay shard %d: %s" % (gi, r.out[-2000:]))
+        summ = json.loads(m.group(1).replace('\\"', '"'))
+        for k in tot:
+            tot[k] += summ["stat"].get(k, 0)
+        for clause, line, run in summ["viol"]:
+            ci = g[run - 1] if 0 < run <= len(g) else None
+            if any(clause.startswith(p) for p in prefixes) or clause.startswith("DRIFT.OffScript"):
+                is_drift = clause.startswith("DRIFT")
+                desc = "scripted replay: clause %s at record %d (script %s)" % (clause, line, paths[ci] if ci is not None else "?")
+                if is_drift:
+                    tot.setdefault("drift", []).append(desc)
+                else:
+                    ctx.violation(desc, tags={"clause": clause, "replay": True},
+                                  files=[files[gi]] + ([paths[ci], outs[ci]] if ci is not None else []))
+    drifts = []
+    for i, out in enumerate(outs):
+        d = compare_impl(out, preds[i])
+        if d:
+            drifts.append({"script": paths[i], "drift": d[:3]})
+    tot["impl_drift_runs"] = len(drifts)
+    tot["impl_drift_samples"] = drifts[:3]
+    tot["scripts"] = len(scripts)
+    return tot, [s[2] for s in scripts[:2]]
